@@ -33,9 +33,11 @@ PROGRAMS = list(PROGRAMS) + [  # primitives in tight layouts: literals touching 
     "import asab as a, fromm\nfrom .a.b import c as d\nfrom .. import e\nfrom ...f import (g as h)",
     "def isnot(a, inb=1, *args, **kw): pass\nclass Cas(B): pass\ntry: pass\nexcept E as e: pass\nglobal_ = f(k=1, **kk)",
     "match s:\n case {**rest}: pass\n case [*star] if star: pass\n case p.q as r: pass\n case None: pass",
+    # flags kept in primitive fields: async comprehensions, annotated targets with and without parentheses, u-prefixed strings
+    "async def f():\n    return [x async for x in y if x], {k: v for k, v in z async for w in k}\n(a): int = 1\nb: str\n(c.d): e = u'text'\ns = 'plain', u'kind'",
 ]
-N_SHARED13 = len(PROGRAMS) - 4
-PROG_IDX = tuple(range(0, 40)) + (50, 51) + tuple(range(N_SHARED13, N_SHARED13 + 4))
+N_SHARED13 = len(PROGRAMS) - 5
+PROG_IDX = tuple(range(0, 40)) + (50, 51) + tuple(range(N_SHARED13, N_SHARED13 + 5))
 PROG_IDX_T = PROG_IDX
 D2 = (0, 1, 3, 7, 10, 11, 15, 16, 20, 22, 23, 28)
 
@@ -100,6 +102,9 @@ def enumerate_muts(tree):
                 out += [('prim', path, field, 0), ('prim', path, field, 1)]
             elif (ncls, field) == ('Constant', 'value') and not in_f and not isinstance(node.value, (bytes, type(...))):
                 out += [('prim', path, field, k) for k in range(4)]
+            elif (ncls, field) in (('comprehension', 'is_async'), ('AnnAssign', 'simple')) or \
+                    ((ncls, field) == ('Constant', 'kind') and isinstance(node.value, str) and not in_f):
+                out.append(('prim', path, field, 0))  # flags: 'async for' <-> 'for', '(x): int' <-> 'x: int', u'...' <-> '...'
     for path, node in O.iter_nodes(tree):
         for field, typ, card in O.GRAMMAR.get(node.__class__.__name__, ()):
             if card != '*':
@@ -169,6 +174,10 @@ def apply_mut(fst, tree, m):
         cur = getattr(node, field)
         if field == 'level':
             new = (0 if node.module else 1) if k == 0 else (cur or 0) + 2
+        elif field in ('is_async', 'simple'):
+            new = 0 if cur else 1
+        elif field == 'kind':
+            new = None if cur else 'u'
         elif field == 'value':
             new = [True, None, 7, 'zz'][k]
             if new == cur and type(new) is type(cur):
